@@ -237,6 +237,10 @@ class Ctx:
         if len(same) < self.max_violations:
             self.violations.append({"what": what, "replay": replay, "key": k, "concrete": concrete})
 
+    def is_known(self, key: Any, alt_keys: list[Any] | None = None) -> bool:
+        ks = [canon_key(key)] + [canon_key(a) for a in (alt_keys or [])]
+        return any(f.get("key") in ks for f in self.findings)
+
     def too_many(self) -> bool:
         return len([v for v in self.violations if v["concrete"]]) >= self.max_violations
 
